@@ -47,7 +47,8 @@ INFO = {
              'UTF-8, invalid cp1252, corrupt/truncated/bomb zlib, unknown code, zero-length body, message of another '
              'family), per-source segmentation from 1-byte dribble to the whole list in one segment, inter-frame '
              'delays, the four sources running concurrently; 20 % of plans add one teardown step (truncated frame + '
-             'EOF, truncated frame + silence, FIN, RST between frames, RST inside a frame), 25 % open fresh '
+             'EOF, truncated frame + silence, FIN, RST between frames, RST inside a frame, frame with a lying length prefix '
+             '+ silence), 25 % open fresh '
              'connections whose first frame is bad; non-trivial = at least one malformed frame or fault step was '
              'sent; distinct = signature over per-link frame labels, delivered counts, final states and regimes'),
     'real': common.REAL, 'stub': common.STUB,
@@ -501,7 +502,8 @@ def badfirst_frame(rec):
 
 SEG_REGIMES = ('onesegment', 'whole', 'prf', 'byte')
 GAPS = (0.0, 0.0, 0.0, 0.001, 0.01, 0.1, 1.0)
-TEARDOWNS = ('trunc_eof', 'trunc_silence', 'fin', 'rst', 'rst_mid')
+TEARDOWNS = ('trunc_eof', 'trunc_silence', 'fin', 'rst', 'rst_mid', 'lenlie_silence')
+SILENCES = ('trunc_silence', 'lenlie_silence')
 
 
 def _draw_valid(rng, fam, prev):
@@ -569,7 +571,7 @@ def generate(rng, index, tier):
     if rng.random() < 0.2:
         src = rng.choice(LINKS)
         kind = rng.choice(TEARDOWNS)
-        if src == 'server' and kind == 'trunc_silence':
+        if src == 'server' and kind in SILENCES:
             kind = 'trunc_eof'
         teardown = {'src': src, 'kind': kind, 'after': rng.randint(0, counts[src]), 'cut': rng.randint(1, 4000),
                     'lag': rng.choice([0.0, 0.05, 1.0]), 'cls': rng.choice(POOL[FAMILY[src]]),
@@ -660,11 +662,12 @@ def corpus(tier):
         lst = [{'src': link, 'kind': 'valid', 'cls': _A[fam][i % 2], 'var': i, 'gap': 0.01, 'key': key}
                for i in range(3)]
         for kind in TEARDOWNS:
-            if link == 'server' and kind == 'trunc_silence':
+            if link == 'server' and kind in SILENCES:
                 continue
             for after in (0, 2, 3):
-                out.append(_plan(lst, teardown={'src': link, 'kind': kind, 'after': after, 'cut': 6, 'lag': 0.05,
-                                                'cls': _A[fam][0], 'var': 3, 'key': key}))
+                for cut in ((6,) if kind != 'lenlie_silence' else range(9)):
+                    out.append(_plan(lst, teardown={'src': link, 'kind': kind, 'after': after, 'cut': cut, 'lag': 0.05,
+                                                    'cls': _A[fam][0], 'var': 3, 'key': key}))
     # 7. bad first frame on a fresh connection, both ports
     for port in ('clear', 'obf'):
         for what in BADFIRST:
@@ -947,7 +950,7 @@ def _run(world: World, plan):
 
     async def do_teardown(lk, td):
         kind = td['kind']
-        if kind == 'trunc_silence' and lk['name'] == 'server':
+        if kind in SILENCES and lk['name'] == 'server':
             kind = 'trunc_eof'      # 600 s timeout shifted by every ping: out of scope (see INFO)
         lk['torn'] = kind
         lk['torn_at'] = loop.time()
@@ -967,6 +970,24 @@ def _run(world: World, plan):
                 end_link(lk, 'close')
             else:
                 lk['silence_from'] = loop.time()
+        elif kind == 'lenlie_silence':
+            # outside the premise of the delivery clauses (the length prefix lies, the stream is desynchronised for
+            # good), inside "whatever bytes ...": the reader must stay alive, i.e. the silent link must still be
+            # closed by the read timeout
+            body = frame[4:]
+            true = len(body)
+            lies = (true - 1, true + 1, max(true - 4, 0), true + 7, true * 2 + 1, 0xFFFFFFF0, 0x7FFFFFFF, 3, 0)
+            lie = lies[int(td.get('cut', 0)) % len(lies)]
+            if lie == true:
+                lie = true + 1
+            blob = wire(struct.pack('<I', lie) + body, lk['obf'], rec.get('key'))
+            for k in (1, 2):
+                follower, _m, _l = make_frame(dict(rec, var=int(rec.get('var', 0)) + k), lk['family'])
+                blob += wire(follower, lk['obf'], rec.get('key'))
+            info = {'label': 'lenlie', 'msg': None, 'partial': True}
+            link_write(lk, blob, [(len(blob), info)])
+            lk['partial'] = info
+            lk['silence_from'] = loop.time()
         elif kind == 'fin':
             end_link(lk, 'close')
         elif kind == 'rst':
@@ -1089,7 +1110,7 @@ def _run(world: World, plan):
         for lk in L.values():
             if lk['torn'] is None or lk.get('setup_failed'):
                 continue
-            if lk['torn'] == 'trunc_silence':
+            if lk['torn'] in SILENCES:
                 while True:
                     if closed_at(lk['conn']) is not None:
                         break
@@ -1135,7 +1156,16 @@ def _run(world: World, plan):
     # ------------------------------------------------------------------ oracle
     sig = []
     if timed_out is not None:
-        world.violate('C02.parse_time', link=timed_out[0], frame=timed_out[1], bound_s=WATCHDOG_S)
+        # which frame?  the first frames of that link that arrived and are not needed to account for the events so far
+        suspects = []
+        lk = L.get(timed_out[0])
+        if lk is not None and lk['conn'] is not None:
+            msgs = [m for (_t, _it, c, m) in ev_log[lk['ev_from']:] if c is lk['conn']]
+            ok = explain(lk['sent'], msgs)
+            ps = [p for p in range(len(lk['sent']) + 1) if ok[p][len(msgs)]]
+            if ps:
+                suspects = [f['label'] for f in lk['sent'][ps[0]:] if f.get('arrived') is not None][:2]
+        world.violate('C02.parse_time', link=timed_out[0], suspects=suspects or [timed_out[1]], bound_s=WATCHDOG_S)
         return common.finish(world, True, ['parse_time', timed_out])
     if harness.get('boot'):
         # the Login.Response is a valid frame as well: a client that cannot log in did not deliver it
@@ -1185,6 +1215,13 @@ def _run(world: World, plan):
             if f['msg'] is not None and f.get('arrived') is not None and f['arrived'] < t_end - EPS:
                 must_upto = i + 1
         ok = explain(frames, msgs)
+        if lk['torn'] == 'lenlie_silence':
+            # whatever the desynchronised tail of the stream was parsed into is not judged: the frames before the
+            # lying prefix must account for a prefix of the events
+            js = [j for j in range(len(msgs) + 1) if ok[len(frames)][j]]
+            if js:
+                events, msgs = events[:js[0]], msgs[:js[0]]
+                ok = explain(frames, msgs)
         m = len(msgs)
         full = [p for p in range(len(frames) + 1) if ok[p][m]]
         # legit end of the link before the end of the list?
@@ -1192,6 +1229,8 @@ def _run(world: World, plan):
             cls_name(x) in CLOSERS[fam] and t <= t_closing + EPS for (t, _it, x) in events)
         if fam == 'dist' and t_closing is not None and any(t <= t_closing + EPS for t in reset_times):
             closer_seen = True
+        if closer_seen and close_reason(conn) != 'REQUESTED':
+            closer_seen = False     # ended by the injected fault (EOF / READ_ERROR / TIMEOUT), not by a handler's decision
         torn = lk['torn'] is not None
         delivered_all = bool(full) and full[-1] == len(frames)
         sig.append((name, tuple(f['label'] for f in frames), m, lk['torn'], lk['state_at_probe'],
@@ -1199,7 +1238,7 @@ def _run(world: World, plan):
         world.trace('link', name, len(frames), m, lk['torn'], lk['state_at_probe'])
 
         def label_at(i):
-            return frames[i]['label'] if 0 <= i < len(frames) else None
+            return frames[i]['label'] if i is not None and 0 <= i < len(frames) else None
 
         if not full:
             # some event cannot be accounted for: find the longest explainable event prefix
@@ -1218,23 +1257,18 @@ def _run(world: World, plan):
                               after=label_at(p_best - 1))
             elif dup:
                 world.violate('C02.delivery', link=name, what='frame delivered twice', cls=cls_name(got))
-            elif skipped_mal:
+            elif skipped_mal or (label_at(p_best - 1) or '').startswith('m:'):
                 world.violate('C02.extra', link=name, what='frame after a malformed frame disturbed',
-                              malformed=skipped_mal[-1], expected=label_at(nxt), got=cls_name(got) if got else None)
+                              malformed=skipped_mal[-1] if skipped_mal else label_at(p_best - 1),
+                              expected=label_at(nxt), got=cls_name(got) if got else None)
             else:
                 world.violate('C02.delivery', link=name, what='wrong, missing or reordered frame',
                               expected=label_at(nxt), got=cls_name(got) if got else None, after=label_at(p_best - 1))
             continue
         p_min, p_max = full[0], full[-1]
-        if closer_seen:
-            # a link-closing message was delivered (possibly out of a malformed frame that is still a legal
-            # message) and the client closed the link: the expected sequence ends there; the prefix test
-            # above already showed that everything before it was delivered once and in order
-            world.probe('link_closed_by_closer_' + fam)
-            nontrivial = True
-            continue
         if torn:
-            if p_max < must_upto:
+            # a delivered link-closing message ends the expected sequence early; the teardown must close the link anyway
+            if not closer_seen and p_max < must_upto:
                 world.violate('C02.delivery', link=name, what='frame that arrived before the teardown not delivered',
                               missing=label_at(p_max), after=label_at(p_max - 1), teardown=lk['torn'])
             if t_closed is None or t_closed > lk.get('deadline', float('inf')) + EPS:
@@ -1243,14 +1277,26 @@ def _run(world: World, plan):
             else:
                 world.probe('teardown_closed_' + lk['torn'])
             continue
+        if closer_seen:
+            # a link-closing message was delivered (possibly out of a malformed frame that is still a legal
+            # message) and the client closed the link: the expected sequence ends there; the prefix test
+            # above already showed that everything before it was delivered once and in order
+            world.probe('link_closed_by_closer_' + fam)
+            nontrivial = True
+            continue
         if lk['state_at_probe'] == 'CLOSED':
             # no injected teardown, no link-closing message delivered: nothing explains this
             last_arrived = None
             for i, f in enumerate(frames):
                 if f.get('arrived') is not None and f['arrived'] <= (t_closing or 0) + EPS:
                     last_arrived = i
-            world.violate('C02.delivery', link=name, what='link closed by the client', reason=close_reason(conn),
-                          after=label_at(last_arrived), badfirst=bool(badfirst))
+            by_bad_first = [e for e in bf if e['sent_at'] - EPS <= t_closing <= e['sent_at'] + 1.0]
+            if by_bad_first:
+                world.violate('C02.first_frame_scope', what='another connection closed together with the bad one',
+                              link=name, frame=by_bad_first[0]['rec']['what'], reason=close_reason(conn))
+            else:
+                world.violate('C02.delivery', link=name, what='link closed by the client', reason=close_reason(conn),
+                              after=label_at(last_arrived))
             continue
         # link open at probe time: everything incl. the probe must have been delivered
         if delivered_all:
@@ -1260,11 +1306,16 @@ def _run(world: World, plan):
         t_closing_late = closing_at(conn)
         if t_closing_late is not None and not probe_delivered:
             world.violate('C02.delivery', link=name, what='link closed by the client', reason=close_reason(conn),
-                          after=label_at(p_max - 1), badfirst=bool(badfirst))
+                          after=label_at(p_max - 1))
+            continue
+        if probe_delivered:
+            world.violate('C02.delivery', link=name, what='frame missing although later frames were delivered',
+                          missing=label_at(p_max), after=label_at(p_max - 1))
             continue
         # open, yet frames are missing: the reader stopped (dead or stuck) without closing the connection
         world.violate('C02.reader_dead', link=name, state=conn.state.name, reader=reader_status(conn),
-                      last_delivered=label_at(p_min - 1), next=label_at(p_max))
+                      last_delivered=label_at(p_min - 1), dropped=[f['label'] for f in frames[p_min:p_max]][:3],
+                      next=label_at(p_max))
 
     # bad first frames -----------------------------------------------------------------------------
     if badfirst:
